@@ -7,12 +7,16 @@
  *   P <pgno> <subno> <occ> [<rowtext>] transmit a page with <occ> occurrences of the pattern
  *   N <pgno> <subno> [<pattern> <casefold> <regexp>]   vbi_search_new
  *   S <dir>                vbi_search_next
+ *   Y <layout>             presentation of the pages sent from now on (reset by B): 0 plain, 1 double height text in
+ *                          row 1, 2 double size in row 1, 3 double width in row 1, 4 double height in rows 5 10 15 20,
+ *                          5 occurrences at row 1+5i column 3i (the first one in the very first cell searched)
  *   E                      end behaviour (decoder deleted)
  */
 #include <stdio.h>
 #include <stdlib.h>
 #include <signal.h>
 #include <unistd.h>
+#include <sys/time.h>
 #include "config.h"
 #include "src/vbi.h"
 #include "src/search.h"
@@ -24,6 +28,7 @@ static vbi_search *srch;
 static ttx_tx tx;
 static char cur_id[64];
 static const char *PATTERN = "ZQX";
+static int layout;
 
 static void on_alarm(int sig)
 {
@@ -32,6 +37,15 @@ static void on_alarm(int sig)
 	(void) sig;
 	if (write(1, buf, n) < 0) {}
 	_exit(3);
+}
+
+/* watchdog on CPU time of this process (a search that never returns burns CPU; a loaded machine must not look like a hang) */
+static void watchdog(int seconds)
+{
+	struct itimerval it;
+	memset(&it, 0, sizeof it);
+	it.it_value.tv_sec = seconds;
+	setitimer(ITIMER_PROF, &it, NULL);
 }
 
 static void ev_handler(vbi_event *ev, void *ud) { (void) ev; (void) ud; }
@@ -51,8 +65,14 @@ static void send_page(int pgno, int subno, int occ, const char *custom)
 			memcpy(text + 4, custom, n > 36 ? 36 : n);
 		}
 		for (i = 0; i < occ; i++)
-			if (row == 2 + 5 * i)
-				memcpy(text + 4 + 3 * i, PATTERN, 3);
+			if (layout == 5 ? row == 1 + 5 * i : row == 3 + 5 * i)      /* layout 5: first occurrence in the first cell of row 1 */
+				memcpy(text + (layout == 5 ? 0 : 4) + 3 * i, PATTERN, 3);
+		/* enlarged text on rows that carry no occurrence (the row below shows the lower halves) */
+		if ((layout >= 1 && layout <= 3 && row == 1) || (layout == 4 && row % 5 == 0)) {
+			text[5] = layout == 2 ? 0x0F : layout == 3 ? 0x0E : 0x0D;
+			memcpy(text + 6, "BIG TEXT", 8);
+			text[20] = 0x0C;    /* normal size */
+		}
 		ttx_send_text_row(&tx, mag, row, text);
 	}
 	ttx_send_filler(&tx, mag);
@@ -61,7 +81,7 @@ static void send_page(int pgno, int subno, int occ, const char *custom)
 int main(void)
 {
 	char line[512];
-	signal(SIGALRM, on_alarm);
+	signal(SIGPROF, on_alarm);
 	setvbuf(stdout, NULL, _IOLBF, 0);
 	while (fgets(line, sizeof line, stdin)) {
 		char c = line[0];
@@ -71,6 +91,9 @@ int main(void)
 			vbi_event_handler_register(vbi, VBI_EVENT_TTX_PAGE, ev_handler, NULL);
 			ttx_tx_init(&tx, vbi);
 			srch = NULL;
+			layout = 0;
+		} else if (c == 'Y') {
+			layout = atoi(line + 1);
 		} else if (c == 'P') {
 			int pgno, subno, occ, off = 0;
 			sscanf(line + 1, "%x %x %d %n", &pgno, &subno, &occ, &off);
@@ -91,9 +114,9 @@ int main(void)
 		} else if (c == 'S') {
 			int dir = atoi(line + 1), r, row, col;
 			vbi_page *pg = NULL;
-			alarm(2);
+			watchdog(4);
 			r = vbi_search_next(srch, &pg, dir);
-			alarm(0);
+			watchdog(0);
 			printf("{\"id\":\"%s\",\"r\":%d", cur_id, r);
 			if (pg) {
 				printf(",\"pg\":%d,\"sub\":%d,\"hl\":[", pg->pgno, pg->subno);
